@@ -248,6 +248,22 @@ def check(case, obs):
                           lambda: 'dropping the least dense kept bin (%d events) leaves %d >= %d' % (H[a, b], kept - H[a, b], target))
             else:
                 obs.exclude('minimality_tie')
+    # boundary probes: a fraction that asks for exactly the number of events just kept (a cumulative bin count),
+    # and its float neighbours -- where ceil(f*n) computed in floats decides between this bin boundary and the next
+    if 0 < kept <= n_in:
+        fb = kept / float(n_in)
+        for fp in (fb, math.nextafter(fb, 2.0), math.nextafter(fb, -1.0)):
+            if not (0 <= fp <= 1):
+                continue
+            ob = call(gate.density2d, data, channels=ch, bins=mk(), gate_fraction=fp, sigma=sig, full_output=True, **kw)
+            tb = int(math.ceil(fp * float(n_in)))
+            okb = not raised(ob) and int(np.asarray(ob.mask).sum()) >= tb
+            obs.claim('lower_bound', okb, lambda: 'boundary probe f=%r (n_in=%d): kept %r < ceil(f*n)=%d' % (
+                fp, n_in, None if raised(ob) else int(np.asarray(ob.mask).sum()), tb))
+            if okb and tb <= kept:
+                obs.claim('minimal', int(np.asarray(ob.mask).sum()) <= kept,
+                          lambda: 'boundary probe f=%r: kept %d although %d events already satisfy ceil(f*n)=%d' % (
+                              fp, int(np.asarray(ob.mask).sum()), kept, tb))
     g = out.gated_data
     base = np.asarray(data)
     obs.claim('gated', np.asarray(g).shape == base[mask].shape and np.array_equal(np.asarray(g), base[mask]),
